@@ -393,7 +393,12 @@ impl CompassApp {
             .collect();
         let load_balanced_inputs =
             ops::apply_load_balancing_policy(&processed_inputs, parallelism, 1.0)?;
-        let error_inputs: Vec<Value> = error_inputs_nested.into_iter().flatten().collect();
+        let mut error_inputs: Vec<Value> = error_inputs_nested.into_iter().flatten().collect();
+        // the responses of queries rejected during input processing are responses of this
+        // batch like any other: they are recorded by the response writer too
+        for error_response in error_inputs.iter_mut() {
+            response_writer.write_response(error_response)?;
+        }
         if load_balanced_inputs.is_empty() {
             return Ok(error_inputs);
         }
